@@ -52,6 +52,7 @@ func run(r *core.Run) {
 		r.Logf("tree displays through jq functions done, cpu %.1fs", cpuSeconds())
 	}
 	if only == "" || only == "tree" {
+		runArrayTrees(r, te, &unit)
 		runTrees(r, te, &unit, 1, 2, core.Pick(r, dslInputs[:1], dslInputs), "dsl_trees", selAll)
 		r.Logf("tree displays up to 2 ops done in %.1fs wall, cpu %.1fs", time.Since(t0).Seconds(), cpuSeconds())
 		if r.Thorough() {
@@ -169,7 +170,7 @@ func replayTree(c TreeCase) bool {
 		fmt.Printf("  buffer of %s: %x (%d bits)\n", dslPath(br), b, t.bits[br])
 	}
 	fmt.Println("  values displayed (path, inner range start:len in bits, buffer nesting):")
-	for _, ev := range t.expected(ni) {
+	for _, ev := range t.expected(ni, treeCfg{fv: fnVar{c.Fn, c.Opt.DB}, o: c.Opt}.effAT()) {
 		fmt.Printf("    %-12s %d:%d nesting %d\n", ev.path, ev.start, ev.n, ev.rootDepth)
 	}
 	bad := false
